@@ -14,57 +14,95 @@ SW_ID = {'train_net_only': 0, 'train_nas_only': 1, 'train_net_and_nas': 2, 'trai
 
 
 # ----------------------------------------------------------------------------- seed networks
-class Pit1d(nn.Module):
-    """Conv1d with receptive-field / dilation masks, BN, residual add, strided (frozen time masks) conv, Linear"""
-    def __init__(s, k=5, stride2=False):
+TRICKY = ['se_module', 'module', 'model', 'seed', 'sn_module', 'sn_branches_like', 'my_module_2', 'alpha', 'module_', 'x_module',
+          'weight_q', 'bias0', 'seed_model', 'layer_module', 'remodule', 'theta', 'module1', 'state_dict_', 'bn_module', 'sn_combiner_2']
+
+
+class Named(nn.Module):
+    """sub-modules are registered under attribute names chosen by a naming scheme: 0 = short plain names; 1, 2 = names that
+    contain substrings a key rewrite could hit ('module', 'model', 'seed', 'sn_branches', 'alpha', 'bn' ...), digits, underscores"""
+    def __init__(s, scheme=0):
         super().__init__()
-        s.p0 = nn.ConstantPad1d((k - 1, 0), 0); s.c0 = nn.Conv1d(3, 6, k); s.b0 = nn.BatchNorm1d(6); s.r = nn.ReLU()
-        s.p1 = nn.ConstantPad1d((2, 0), 0); s.c1 = nn.Conv1d(6, 6, 3)
+        s._scheme, s._names = scheme, {}
+        s._no_sn = False
+
+    def put(s, logical, mod):
+        if s._scheme == 0:
+            actual = logical
+        else:
+            actual = TRICKY[(len(s._names) + 7 * (s._scheme - 1)) % len(TRICKY)]
+            if s._no_sn and 'sn_branches' in actual:
+                # SuperNet conversion (supernet/graph.py link_combiners_to_branches) cannot even construct a wrapper around a
+                # seed with a plain layer whose name contains 'sn_branches' (ValueError): outside the domain of this property
+                actual = 'sn_branch_like'
+        s._names[logical] = actual
+        s.add_module(actual, mod)
+
+    def g(s, logical):
+        return getattr(s, s._names[logical])
+
+
+class Pit1d(Named):
+    """Conv1d with receptive-field / dilation masks, BN, residual add, strided (frozen time masks) conv, Linear"""
+    def __init__(s, k=5, stride2=False, scheme=0):
+        super().__init__(scheme)
+        s.put('p0', nn.ConstantPad1d((k - 1, 0), 0)); s.put('c0', nn.Conv1d(3, 6, k)); s.put('b0', nn.BatchNorm1d(6)); s.put('r', nn.ReLU())
+        s.put('p1', nn.ConstantPad1d((2, 0), 0)); s.put('c1', nn.Conv1d(6, 6, 3))
         s.stride2 = stride2
         if stride2:
-            s.p2 = nn.ConstantPad1d((2, 0), 0); s.c2 = nn.Conv1d(6, 5, 3, stride=2)
-        s.pool = nn.AdaptiveAvgPool1d(2); s.f = nn.Flatten(); s.l = nn.Linear(10 if stride2 else 12, 4)
+            s.put('p2', nn.ConstantPad1d((2, 0), 0)); s.put('c2', nn.Conv1d(6, 5, 3, stride=2))
+        s.put('pool', nn.AdaptiveAvgPool1d(2)); s.put('f', nn.Flatten()); s.put('l', nn.Linear(10 if stride2 else 12, 4))
 
     def forward(s, x):
-        a = s.r(s.b0(s.c0(s.p0(x)))); b = s.c1(s.p1(a)); y = a + b
+        a = s.g('r')(s.g('b0')(s.g('c0')(s.g('p0')(x)))); b = s.g('c1')(s.g('p1')(a)); y = a + b
         if s.stride2:
-            y = torch.relu(s.c2(s.p2(y)))
-        return s.l(s.f(s.pool(y)))
+            y = torch.relu(s.g('c2')(s.g('p2')(y)))
+        return s.g('l')(s.g('f')(s.g('pool')(y)))
 
 
-class Net2d(nn.Module):
+class Net2d(Named):
     """Conv2d/BN/ReLU, residual add, Linear/BN1d head"""
-    def __init__(s, c=4, head_bn=False):
-        super().__init__()
-        s.c = nn.Conv2d(3, c, 3, padding=1); s.bn = nn.BatchNorm2d(c); s.r = nn.ReLU()
-        s.c2 = nn.Conv2d(c, c, 3, padding=1); s.r2 = nn.ReLU()
-        s.p = nn.AdaptiveAvgPool2d(1); s.f = nn.Flatten(); s.l = nn.Linear(c, 5)
+    def __init__(s, c=4, head_bn=False, scheme=0):
+        super().__init__(scheme)
+        s.put('c', nn.Conv2d(3, c, 3, padding=1)); s.put('bn', nn.BatchNorm2d(c)); s.put('r', nn.ReLU())
+        s.put('c2', nn.Conv2d(c, c, 3, padding=1)); s.put('r2', nn.ReLU())
+        s.put('p', nn.AdaptiveAvgPool2d(1)); s.put('f', nn.Flatten()); s.put('l', nn.Linear(c, 5))
         s.head_bn = head_bn
         if head_bn:
-            s.bn1 = nn.BatchNorm1d(5); s.l2 = nn.Linear(5, 3)
+            s.put('bn1', nn.BatchNorm1d(5)); s.put('l2', nn.Linear(5, 3))
 
     def forward(s, x):
-        a = s.r(s.bn(s.c(x))); b = s.r2(s.c2(a)); y = s.l(s.f(s.p(a + b)))
+        a = s.g('r')(s.g('bn')(s.g('c')(x))); b = s.g('r2')(s.g('c2')(a)); y = s.g('l')(s.g('f')(s.g('p')(a + b)))
         if s.head_bn:
-            y = s.l2(torch.relu(s.bn1(y)))
+            y = s.g('l2')(torch.relu(s.g('bn1')(y)))
         return y
 
 
-class Sn2(nn.Module):
-    """two SuperNet blocks (conv3x3 | conv1x1-BN-conv3x3 | identity) and (conv3x3 | conv5x5), plain conv between, residual add"""
-    def __init__(s, gumbel=False, hard=False):
-        super().__init__()
-        from plinio.methods.supernet import SuperNetModule
-        s.b = SuperNetModule([nn.Conv2d(3, 3, 3, padding=1),
-                              nn.Sequential(nn.Conv2d(3, 3, 1), nn.BatchNorm2d(3), nn.Conv2d(3, 3, 3, padding=1)),
-                              nn.Identity()], gumbel_softmax=gumbel, hard_softmax=hard)
-        s.l = nn.Conv2d(3, 2, 1); s.bn = nn.BatchNorm2d(2)
-        s.b2 = SuperNetModule([nn.Conv2d(2, 2, 3, padding=1), nn.Conv2d(2, 2, 5, padding=2)], gumbel_softmax=gumbel, hard_softmax=hard)
-        s.p = nn.AdaptiveAvgPool2d(1); s.f = nn.Flatten(); s.fc = nn.Linear(2, 3)
+class Block(Named):
+    """user-defined multi-layer SuperNet branch (conv1x1 - BN - conv3x3) with named sub-modules"""
+    def __init__(s, scheme):
+        super().__init__(scheme)
+        s.put('a', nn.Conv2d(3, 3, 1)); s.put('n', nn.BatchNorm2d(3)); s.put('b', nn.Conv2d(3, 3, 3, padding=1))
 
     def forward(s, x):
-        a = torch.relu(s.bn(s.l(s.b(x))))
-        return s.fc(s.f(s.p(s.b2(a) + a)))
+        return s.g('b')(s.g('n')(s.g('a')(x)))
+
+
+class Sn2(Named):
+    """two SuperNet blocks (conv3x3 | conv1x1-BN-conv3x3 | identity) and (conv3x3 | conv5x5), plain conv between, residual add"""
+    def __init__(s, gumbel=False, hard=False, scheme=0):
+        super().__init__(scheme)
+        s._no_sn = True
+        from plinio.methods.supernet import SuperNetModule
+        mid = nn.Sequential(nn.Conv2d(3, 3, 1), nn.BatchNorm2d(3), nn.Conv2d(3, 3, 3, padding=1)) if scheme == 0 else Block(scheme + 1)
+        s.put('b', SuperNetModule([nn.Conv2d(3, 3, 3, padding=1), mid, nn.Identity()], gumbel_softmax=gumbel, hard_softmax=hard))
+        s.put('l', nn.Conv2d(3, 2, 1)); s.put('bn', nn.BatchNorm2d(2))
+        s.put('b2', SuperNetModule([nn.Conv2d(2, 2, 3, padding=1), nn.Conv2d(2, 2, 5, padding=2)], gumbel_softmax=gumbel, hard_softmax=hard))
+        s.put('p', nn.AdaptiveAvgPool2d(1)); s.put('f', nn.Flatten()); s.put('fc', nn.Linear(2, 3))
+
+    def forward(s, x):
+        a = torch.relu(s.g('bn')(s.g('l')(s.g('b')(x))))
+        return s.g('fc')(s.g('f')(s.g('p')(s.g('b2')(a) + a)))
 
 
 def input_shape(cfg):
@@ -86,13 +124,13 @@ def build(cfg, inst=0):
     torch.manual_seed(cfg['seed'])
     m, o = cfg['method'], cfg['opts']
     if m == 'PIT':
-        net = Pit1d(o.get('k', 5), o.get('stride2', False)) if cfg['net'] == 'pit1d' else Net2d(4, o.get('head_bn', False))
+        net = Pit1d(o.get('k', 5), o.get('stride2', False), o.get('names', 0)) if cfg['net'] == 'pit1d' else Net2d(4, o.get('head_bn', False), o.get('names', 0))
         net.train(o.get('seed_training', True))
         wrapper_rng(cfg, inst)
         return PIT(net, input_shape=input_shape(cfg), cost={'params': params, 'ops': ops}, discrete_cost=o.get('discrete_cost', False),
                    fold_bn=o.get('fold_bn', False), full_cost=o.get('full_cost', False))
     if m == 'MPS':
-        net = Net2d(o.get('c', 3), o.get('head_bn', False))
+        net = Net2d(o.get('c', 3), o.get('head_bn', False), o.get('names', 0))
         net.train(o.get('seed_training', True))
         wrapper_rng(cfg, inst)
         return MPS(net, input_shape=input_shape(cfg), cost={'pbit': params_bit, 'obit': ops_bit},
@@ -101,7 +139,7 @@ def build(cfg, inst=0):
                    temperature=o.get('temperature', 1.0), gumbel_softmax=o.get('gumbel', False), hard_softmax=o.get('hard', False),
                    disable_sampling=o.get('nosamp', False), full_cost=o.get('full_cost', False))
     if m == 'SN':
-        net = Sn2(o.get('gumbel', False), o.get('hard', False))
+        net = Sn2(o.get('gumbel', False), o.get('hard', False), o.get('names', 0))
         net.train(o.get('seed_training', True))
         wrapper_rng(cfg, inst)
         return SuperNet(net, input_shape=input_shape(cfg), cost={'params': params, 'ops': ops}, full_cost=o.get('full_cost', False))
